@@ -53,6 +53,11 @@ TEXTS = [
     "x = 1 # paroxython: my_hint\n",
     "import os # paroxython: -import_module:os\nprint(os.getcwd()) # paroxython: io_hint\n",
 ]
+TEXTS += [
+    # raw characters that str.splitlines() takes for line boundaries, inside string literals
+    's = "a\x0bb"\nprint(s)\n',
+    "t = 'x\x0cy\u2028z'\nu = 'k\x1cl\x85m'\nprint(t, u)\n",
+]
 BASE_OF_HINTED = {20: 18, 21: 0, 22: 1}  # index of a hinted text -> index of the hint-free text with the same code
 
 
@@ -240,6 +245,21 @@ def stream_sequences(ctx, drv, n_seq):
     queries = [[q, prereq(probe.queries[q])] for q in query_ids]
     texts = list(TEXTS)  # fixed prefix (the indices of the fixed sequences refer to it)
     texts += drawn_texts(ctx, n_corpus=6 if ctx.tier == "quick" else 30, n_generated=10 if ctx.tier == "quick" else 50)
+    twin_groups = []
+    try:
+        from . import c02
+        for _ in range(3 if ctx.tier == "quick" else 30):
+            tw = c02.gen_twins(ctx.rng, "none")
+            if tw:
+                idx = []
+                for t in tw.values():
+                    if t not in texts:
+                        texts.append(t)
+                    idx.append(texts.index(t))
+                twin_groups.append(idx)
+                ctx.dist("seq.text.layout_twins", len(idx))
+    except Exception as e:  # noqa
+        ctx.notes.append(f"c02.gen_twins not usable for the C03 sequences: {type(e).__name__}: {e}")
     recs = [reference(t, query_ids) for t in texts]
     from paroxython.list_programs import get_program
     for h, b in BASE_OF_HINTED.items():
@@ -263,6 +283,9 @@ def stream_sequences(ctx, drv, n_seq):
             seq = [18, 20, 18, 20, 0, 21, 22, 1]  # hint-free first, then the same code with hints
         elif si == 2:
             seq = [20, 18, 21, 0, 1, 22, 20]  # hinted first, then the same code without hints
+        elif 3 <= si < 3 + len(twin_groups):
+            g = list(twin_groups[si - 3])  # layout twins (same tree, different lines), one after the other, both orders
+            seq = g + g[::-1] + [ctx.rng.randrange(len(TEXTS))] + g[:1]
         elif ctx.rng.random() < 0.4:
             h = ctx.rng.choice(list(BASE_OF_HINTED))
             pair = [BASE_OF_HINTED[h], h]
@@ -420,6 +443,17 @@ def stream_collections(ctx, drv, n):
         # the hinted copy first
         ({"a.py": hinted_code, "b.py": base_code}, [["b.py"], ["a.py"]]),
     ]
+    try:
+        from . import c02
+        for _ in range(2 if ctx.tier == "quick" else 12):
+            tw = c02.gen_twins(ctx.rng, "full")
+            if tw:
+                names_tw = sorted(tw)
+                fixed.append((tw, [[names_tw[-1]], [names_tw[0]], names_tw[1:]]))
+    except Exception as e:  # noqa
+        ctx.notes.append(f"c02.gen_twins not usable for the C03 collections: {type(e).__name__}: {e}")
+    fixed.append(({"a.py": TEXTS[23], "b.py": "import a\n" + TEXTS[24], "c.py": "import b\nx = 1\n"},
+                  [["a.py"], ["a.py", "b.py"], ["b.py", "c.py"]]))
     for ci in range(n + len(fixed)):
         k = ctx.rng.randrange(3, 6)
         files = {}
@@ -507,6 +541,8 @@ from paroxython.make_db import TagDatabase
 with contextlib.redirect_stdout(io.StringIO()):
     db = TagDatabase(Path(sys.argv[1]), ignore_timestamps=True)
     db.write_json(Path(sys.argv[2]))
+    if len(sys.argv) > 4:
+        db.write_sqlite(Path(sys.argv[4]))
 """
 
 
@@ -540,6 +576,32 @@ def stream_hashseeds(ctx, n_dirs, n_seeds):
                 blobs[s] = ("exc", msg.strip().splitlines()[-1] if msg.strip() else "?")
             else:
                 blobs[s] = ("ok", out.read_bytes())
+        # a second collect run writing onto the SAME existing files (json and sqlite): same bytes, same rows
+        s0, out0, _ = procs[0]
+        if blobs[s0][0] == "ok":
+            sq = base / f"h{di}" / "same.sqlite"
+            env = dict(os.environ, PYTHONPATH=repo, PYTHONHASHSEED=str(seeds[1]), PAROXYTHON_VERIF="1")
+            runs = []
+            for _run in range(2):
+                r = subprocess.run([sys.executable, "-c", SUBPROCESS, str(root), str(out0), repo, str(sq)], env=env,
+                                   cwd=str(base), stdout=subprocess.PIPE, stderr=subprocess.PIPE, timeout=300)
+                runs.append((r.returncode, out0.read_bytes() if out0.exists() else b"",
+                             c11.read_sqlite(sq) if r.returncode == 0 and sq.exists() else None))
+            ctx.count("same-output-files", json.dumps(files, sort_keys=True), nontrivial=True, n=2)
+            (c1, j1, q1), (c2, j2, q2) = runs
+            if c1 != 0 or c2 != 0 or j1 != blobs[s0][1] or j2 != j1 or q1 != q2:
+                what = ("a collect run onto existing output files fails" if (c1 or c2) else
+                        "JSON bytes differ when collect writes onto an existing file" if (j1 != blobs[s0][1] or j2 != j1) else
+                        "two collect runs onto the same .sqlite file do not leave the same rows")
+                ctx.violations.append({
+                    "what": what,
+                    "replay": {"kind": "same-output-files", "files": files,
+                               "impl": {"exit": [c1, c2], "json_same": j1 == j2 == blobs[s0][1],
+                                        "sqlite_rows_run1": None if q1 is None else {k: len(v) for k, v in q1.items()},
+                                        "sqlite_rows_run2": None if q2 is None else {k: len(v) for k, v in q2.items()}},
+                               "model": "makeDb is a function of the directory: same facts", "spec": "byte-identical / same facts",
+                               "how": "TagDatabase(D, ignore_timestamps=True); write_json(out); write_sqlite(db) — twice, "
+                                      "in two processes, onto the same two files"}})
         ctx.count("hash-seeds", json.dumps(files, sort_keys=True), nontrivial=True, n=len(seeds))
         ref = blobs[seeds[0]]
         for s in seeds[1:]:
